@@ -141,7 +141,7 @@ pub fn run_c04(shard: &Shard) -> i32 {
             let seed = rng.next();
             with_family!(spec.family, sched_case_c04, &spec, &plan, seed);
         } else {
-            let p = Profile { small: true, with_dominance: true, medium_share: 2, large_share: 10, ..Default::default() };
+            let p = Profile { small: true, with_dominance: true, medium_share: 2, large_share: 10, deceptive_share: 4, ..Default::default() };
             let mut spec = random_spec(rng, &p);
             let n0 = *rng.pick(&[1usize, 2, 3, 4, 8]);
             let n1 = if rng.chance(1, 2) { Some(*rng.pick(&[1usize, 2, 3, 5, 8, 16])) } else { None };
@@ -190,7 +190,7 @@ pub fn run_c03(shard: &Shard) -> i32 {
             with_family!(spec.family, sched_case, &spec, &plan, seed, PROP);
         } else {
             // free running threads with injected delays on small instances
-            let p = Profile { small: true, with_dominance: true, medium_share: 2, large_share: if shard.idx % 8 == 7 { 5 } else { 0 }, ..Default::default() };
+            let p = Profile { small: true, with_dominance: true, medium_share: 2, large_share: if shard.idx % 8 == 7 { 5 } else { 0 }, deceptive_share: if shard.idx % 8 == 7 { 12 } else { 0 }, ..Default::default() };
             let mut spec = random_spec(rng, &p);
             let n = *rng.pick(&[2usize, 3, 4, 8, 16]);
             // injected delays on tiny / small instances only (a long search with a sleep at every event would take minutes)
